@@ -448,9 +448,7 @@ func (fox *Router) Txn(write bool) *Txn {
 
 func (fox *Router) txnWith(write, cache bool) *Txn {
 	if write {
-		simAcquire(&fox.mu)
 		fox.mu.Lock()
-		simPoint(ptLocked)
 	}
 
 	return &Txn{
@@ -485,9 +483,7 @@ func (fox *Router) newTree() *iTree {
 
 // getRoot load the tree atomically.
 func (fox *Router) getRoot() *iTree {
-	simPoint(ptBeforeLoad)
 	r := fox.tree.Load()
-	simPoint(ptAfterLoad)
 	return r
 }
 
